@@ -130,8 +130,8 @@ ChainMask(m0, p, lo, h) == IF Kind(p) \in KindCF /\ lo <= K(p) /\ K(p) <= h THEN
 \* The filter p serves for block b at height h.
 FOf(p, b, h) ==
   LET lie == K(p) = h IN
-  IF lie /\ Kind(p) \in {"OM", "OU", "HC", "FO"} THEN [srv |-> TRUE,  hash |-> b * HS + p, ver |-> FALSE]
-  ELSE IF lie /\ Kind(p) = "EX"            THEN [srv |-> TRUE,  hash |-> b * HS + p, ver |-> TRUE]
+  IF lie /\ Kind(p) \in {"OM", "OU", "OE", "HC", "FO"} THEN [srv |-> TRUE,  hash |-> b * HS + p, ver |-> FALSE]
+  ELSE IF lie /\ Kind(p) \in {"EX", "OI"}   THEN [srv |-> TRUE,  hash |-> b * HS + p, ver |-> TRUE]
   ELSE IF lie /\ Kind(p) = "NS"            THEN [srv |-> FALSE, hash |-> 0,          ver |-> FALSE]
   ELSE                                          [srv |-> TRUE,  hash |-> b * HS,     ver |-> TRUE]
 
